@@ -49,8 +49,8 @@ _claim("C14", "Transcript-RNG keying modelled as operations (witness bytes re-ke
        "share no RNG-derived nonce.", _COMMON_NOTE, "Coq proof (keying structure, witness serialisation injective) + fault-model run pairs + log correspondence", "5/C14")
 _claim("C16", 'A three-valued (value / error / panic) model of verify and verify_batch with every partial machine operation explicit (unchecked usize arithmetic, shifts, ilog2, chunks(0), the two length assertions of the back end) is proved equal to the total model for constructor-built statements and arbitrary proofs, weights, modes and shapes (C16_verify_chunk_checked_is_total_model, C16_verify_batch_checked_is_total_model), hence never panics (C16_verify_batch_never_panics); after the round-count guard no index/shift/subtraction of the per-proof body can fail (C16_proof_body_checked). Guards of decoder and verifier modelled in code order; one lemma per partial operation of the Rust code (s-vector indices, `1 << rounds` only below 64, index into d, ilog2 of a constructor-validated count, non-zero chunk size, back-end length assertion, checked padding); hostile proofs/batches (incl. 512-1024 commitments per statement) in debug and release builds over two back ends must never panic; model predicts Ok/Err. Partial by nature (the list of partial operations is hand-enumerated; panics inside dependencies are runtime behaviour).', _COMMON_NOTE,
        'Coq proof (each enumerated partial operation stays inside its domain) + hostile-input exploration under catch_unwind (debug+release)', "5/C16")
-_claim("C11", "Label layout and chain indexing are a Gallina model with injectivity / prefix / table-order theorems; SHAKE256, SHA3-512 and the Ristretto one-way map are re-implemented in Gallina so that the generator BYTES are recomputed inside Coq and compared with the implementation (quick: parties 0-3 and all Pedersen points; thorough: all 4103 points), plus the recorded digest of the release's 4103 encodings, pairwise distinctness and non-identity of the implementation's points (exhaustive on the domain, by direct comparison, not a theorem), table order, capacity independence, racing first use.", "Trusted: Coq kernel + vm_compute + BigZ; Crypto/Keccak.v and Crypto/Ristretto.v model dependencies (validated by byte equality with the Rust crates on every run, not verified); harness gens driver. No axioms.",
-       'Coq proof (label injectivity, chain prefix, table order) + byte-exact correspondence with a Gallina hash-to-group derivation; distinctness exhaustive on the finite domain', "5/C11")
+_claim("C11", "Label layout and chain indexing are a Gallina model with injectivity / prefix / table-order theorems; SHAKE256, SHA3-512 and the Ristretto one-way map are re-implemented in Gallina so that the generator BYTES are recomputed inside Coq and compared with the implementation (quick: parties 0-3 and all Pedersen points; thorough: all 4103 points), plus the recorded digest of the release's 4103 encodings, pairwise distinctness and non-identity of all 4103 derived encodings as a theorem by computation on the finite domain (C11_generators_distinct, on the Gallina derivation whose bytes equal the implementation's) and by direct comparison of the implementation's points on every run, table order, capacity independence, racing first use.", "Trusted: Coq kernel + vm_compute + BigZ; Crypto/Keccak.v and Crypto/Ristretto.v model dependencies (validated by byte equality with the Rust crates on every run, not verified); harness gens driver. No axioms declared (Print Assumptions of C11_generators_distinct lists the kernel's PrimInt63 primitives used by BigZ).",
+       'Coq proof (label injectivity, chain prefix, table order) + byte-exact correspondence with a Gallina hash-to-group derivation; distinctness of all 4103 derived points a theorem by computation on the finite domain', "5/C11")
 _claim("C18", "Purity holds in the model by construction (state-free functions); the once-initialised statics are modelled as a state machine and proved correct under every schedule; histories, request sequences, "
        "16-thread runs against a single-threaded baseline and fresh-process first-use races are explored on the code. Partial by nature (real schedules are runtime behaviour).",
        "Trusted: Coq kernel; Model/Once.v is a logical model; OS scheduling; harness thread/history drivers. No axioms.",
